@@ -111,3 +111,5 @@ different key, a truncated index or another fill order is a broken obligation.) 
 theorem tag_table_construction :
     Gen.Pure.tagTableSetup = ["targets := make([]target, len(head.Sums))", "tagTable := make(map[uint16]int)",
       "{ for idx, sum := range head.Sums { targets[idx] = target{ index: int32(idx), tag: rsyncchecksum.Tag(sum.Sum1), } } sort.Slice(targets, func(i, j int) bool { return targets[i].tag < targets[j].tag }) for idx := len(head.Sums) - 1; idx >= 0; idx-- { tagTable[targets[idx].tag] = idx } }"] := rfl
+
+end C16
